@@ -35,9 +35,6 @@ func init() {
 		}
 		steps, q = w.Run(world.EagerPolicy, 500)
 		fmt.Fprintf(Out, "sign: steps=%d quiescent=%v board=%d in %v\n", steps, q, w.Board.Len(), time.Since(t0))
-		for _, l := range w.Trace {
-			fmt.Fprintln(Out, l)
-		}
 		c.Eval(1)
 		c.Distinct("a")
 		c.Distinct("b")
